@@ -8,6 +8,7 @@ Scalars are emitted in mode 'num'.  Parameters: `c s` = cos/sin of the orientati
 the translator itself is cos(-x) = cos x, sin(-x) = -sin x when it reads `jones_rotation_matrix(-theta)`.
 """
 import ast
+import re
 from pyexpr2lean import Gen, Tr, Untranslatable, load, get_def, get_const, find_returns
 
 M = 'Model.C20'
@@ -23,25 +24,66 @@ def _entry_target(t):
     return None
 
 
+def _stored_names(node):
+    out = set()
+    for n in ast.walk(node):
+        if isinstance(n, ast.Name) and isinstance(n.ctx, (ast.Store, ast.Del)):
+            out.add(n.id)
+        elif isinstance(n, (ast.AugAssign, ast.AnnAssign)) and isinstance(n.target, ast.Name):
+            out.add(n.target.id)
+        elif isinstance(n, ast.Subscript) and isinstance(n.ctx, ast.Store) and isinstance(n.value, ast.Name):
+            out.add(n.value.id)
+    return out
+
+
+def _mentions(text, name):
+    return re.search(r'(?<![\w.])' + re.escape(name) + r'(?![\w])', text) is not None
+
+
 class Interp:
     """symbolic reading of a constructor body: scalar locals are inlined (mode 'num'), matrix locals become Lean
-    terms built from M22.zero / set / smul / add / mul and calls of the generated rotation table."""
+    terms built from M22.zero / set / smul / add / mul and calls of the generated rotation table.
+
+    SOUND w.r.t. re-binding: a name re-bound by something the translator cannot read (untranslatable right-hand side,
+    augmented assignment, any assignment inside if/for/while/with/try, a mutating method call) is POISONED together with
+    every environment key / matrix / angle that mentions it, so a later use raises Untranslatable (the item falls back and
+    the correspondence is widened) instead of silently seeing the stale value.  One exception, which is sound: an ANGLE
+    name (a name `x` for which `np.cos(x)`, `np.sin(x)` are parameters) may be re-bound arbitrarily as long as neither
+    `np.cos(x)` nor `np.sin(x)` has been evaluated before — the parameters then stand for cos / sin of the new value, and
+    the theorems quantify over every pair with c² + s² = 1 (this is how `theta = theta * charge` is read)."""
 
     def __init__(self, scalar_env, angles):
         self.env = dict(scalar_env)      # python text -> Lean scalar term
         self.mats = {}                   # python name -> Lean M22 term
         self.angles = dict(angles)       # python text of an angle expression -> (cos term, sin term)
-        self.skipped = []
+        self.rebound_angles = []
 
     def tr(self):
         return Tr(self.env, 'num')
+
+    def poison(self, name):
+        for k in [k for k in self.env if _mentions(k, name)]:
+            del self.env[k]
+        for k in [k for k in self.angles if _mentions(k, name)]:
+            del self.angles[k]
+        self.mats.pop(name, None)
+
+    def _angle_rebind_ok(self, name, earlier):
+        keys = [f'np.cos({name})', f'np.sin({name})']
+        if not any(k in self.env for k in keys) and not any(_mentions(k, name) for k in self.angles):
+            return False
+        used = any(k in ast.unparse(st) for st in earlier for k in keys) or \
+            any(ast.unparse(c.func) == ROTFN and any(_mentions(ast.unparse(a), name) for a in c.args)
+                for st in earlier for c in ast.walk(st) if isinstance(c, ast.Call))
+        return not used
 
     def mat(self, e):
         if isinstance(e, ast.Name) and e.id in self.mats:
             return self.mats[e.id]
         if isinstance(e, ast.Call) and ast.unparse(e.func) == ROTFN:
-            if len(e.args) != 1 or e.keywords:
-                raise Untranslatable(f'rotation call with extra arguments: {ast.unparse(e)}')
+            # jones_rotation_matrix(angle[, shape]) : the shape only repeats the matrix over the batch
+            if not (1 <= len(e.args) <= 2) or any(k.arg != 'shape' for k in e.keywords):
+                raise Untranslatable(f'rotation call with unexpected arguments: {ast.unparse(e)}')
             key = ast.unparse(e.args[0])
             if key not in self.angles:
                 raise Untranslatable(f'rotation by unknown angle {key}')
@@ -57,10 +99,10 @@ class Interp:
 
     def run(self, stmts):
         """returns the Lean term of the returned matrix (or None if no return was met)"""
-        for st in stmts:
+        for idx, st in enumerate(stmts):
             if isinstance(st, ast.Expr) and isinstance(st.value, ast.Constant):
                 continue
-            if isinstance(st, ast.Assert):
+            if isinstance(st, (ast.Assert, ast.Pass)):
                 continue
             if isinstance(st, ast.Return):
                 return self.mat(st.value)
@@ -75,35 +117,51 @@ class Interp:
                     continue
                 if isinstance(t, ast.Name):
                     try:
-                        self.mats[t.id] = self.mat(st.value)
+                        term = self.mat(st.value)
+                        self.poison(t.id)
+                        self.mats[t.id] = term
                         continue
                     except Untranslatable:
                         pass
                     try:
-                        self.env[t.id] = self.tr().expr(st.value)
+                        term = self.tr().expr(st.value)
+                        self.poison(t.id)
+                        self.env[t.id] = term
                         continue
                     except Untranslatable:
-                        self.skipped.append(ast.unparse(st))
+                        pass
+                    if self._angle_rebind_ok(t.id, stmts[:idx]):
+                        self.rebound_angles.append(ast.unparse(st))
                         continue
-            if isinstance(st, ast.AugAssign) and isinstance(st.target, ast.Name) and isinstance(st.op, ast.Mult):
-                if st.target.id in self.mats:
-                    self.mats[st.target.id] = f'(M22.smul {self.tr().expr(st.value)} {self.mats[st.target.id]})'
+                    self.poison(t.id)
                     continue
-                self.skipped.append(ast.unparse(st))
+            if isinstance(st, ast.AugAssign) and isinstance(st.target, ast.Name):
+                nm = st.target.id
+                if nm in self.mats and isinstance(st.op, ast.Mult):
+                    self.mats[nm] = f'(M22.smul {self.tr().expr(st.value)} {self.mats[nm]})'
+                    continue
+                if self._angle_rebind_ok(nm, stmts[:idx]):
+                    self.rebound_angles.append(ast.unparse(st))
+                    continue
+                self.poison(nm)
                 continue
-            raise Untranslatable(f'statement {ast.unparse(st)[:60]}')
+            # anything else (if / for / while / with / try / bare calls / subscript stores ...)
+            for nm in _stored_names(st):
+                self.poison(nm)
+            for c in ast.walk(st):
+                if isinstance(c, ast.Call) and isinstance(c.func, ast.Attribute) and isinstance(c.func.value, ast.Name):
+                    if c.func.value.id in self.mats:
+                        self.poison(c.func.value.id)      # e.g. jones.fill(...)
         return None
 
 
-def recognise(g, name, source, node_fn, check):
-    """a structural fact as an ITEM: `true` when the known-good shape of the source is recognised; when it is not
-    (a refactor, or a change of behaviour) the item is `untranslatable`, which widens the correspondence sweep that
-    checks the behaviour itself — a harmless rewrite never alarms, a harmful one is caught on the real outputs."""
-    def build():
-        if not check():
-            raise Untranslatable('source shape not recognised')
-        return f'def {name} : Bool := true'
-    g.item(name, source, node_fn, build, f'def {name} : Bool := true')
+def default_of(fn, name):
+    args = fn.args.args
+    defs = fn.args.defaults
+    pos = [a.arg for a in args].index(name) - (len(args) - len(defs))
+    if pos < 0:
+        raise Untranslatable(f'{name} has no default')
+    return defs[pos]
 
 
 def generate(repo):
@@ -115,8 +173,15 @@ def generate(repo):
     def empty_zero():
         fn = get_def(po, '_empty_jones')
         (ret,) = find_returns(fn)
-        return ast.unparse(ret) == 'np.zeros(shape, dtype=config.precision_complex)'
-    recognise(g, 'emptyJonesIsZeros', 'prysm/x/polarization.py:_empty_jones', None, empty_zero)
+        if not isinstance(ret, ast.Call):
+            return None
+        f = ast.unparse(ret.func)
+        if f in ('np.zeros', 'numpy.zeros'):
+            return True
+        if f in ('np.ones', 'np.empty', 'np.full', 'numpy.ones', 'numpy.empty', 'numpy.full'):
+            return False        # recognised, and wrong: the constructors only write some entries
+        return None
+    g.fact('emptyJonesIsZeros', 'prysm/x/polarization.py:_empty_jones', empty_zero)
 
     # ------------------------------------------------------------------ rotation matrix
     def rot():
@@ -178,8 +243,8 @@ def generate(repo):
         term = it.run(fn.body)
         if term is None:
             raise Untranslatable('no return')
-        if it.skipped != ['shape = theta.shape', 'theta *= charge']:
-            raise Untranslatable(f'unexpected non-matrix statements: {it.skipped}')
+        if len(it.rebound_angles) > 1:
+            raise Untranslatable(f'angle re-bound more than once: {it.rebound_angles}')
         return f'def vortex (mI ch sh c s cr sr : K) : M22 K := {term}'
     g.item('vector_vortex_retarder', 'prysm/x/polarization.py:vector_vortex_retarder',
            lambda: get_def(po, 'vector_vortex_retarder'), vortex,
@@ -204,20 +269,71 @@ def generate(repo):
     g.item('jones_to_mueller.U', 'prysm/x/polarization.py:jones_to_mueller', lambda: get_def(po, 'jones_to_mueller'),
            mueller_u, f'def muellerU (I : K) : Nat → Nat → K := {M}.muellerU I')
 
+    def _is_conj_of(node, name):
+        t = ast.unparse(node).replace(' ', '')
+        return t in (f'np.conj({name})', f'np.conjugate({name})', f'{name}.conj()', f'{name}.conjugate()')
+
     def mueller_form():
+        """True: every branch forms kron(conj J, J) and the result is real(U @ jprod @ U^-1); False: a branch is recognised
+        as something else (operands swapped, no conjugate, U on the wrong side); None: shape not recognised"""
         fn = get_def(po, 'jones_to_mueller')
-        src = [ast.unparse(st) for st in ast.walk(fn) if isinstance(st, (ast.Assign, ast.AugAssign))]
-        need = ['U /= np.sqrt(2)', 'jprod = broadcast_kron(np.conj(jones), jones)', 'jprod = np.kron(np.conj(jones), jones)',
-                'M = np.real(U @ jprod @ np.linalg.inv(U))']
-        return all(n in src for n in need) and [ast.unparse(r) for r in find_returns(fn)] == ['M']
-    recognise(g, 'muellerIsRealOfUKronConjJJUinv', 'prysm/x/polarization.py:jones_to_mueller', None, mueller_form)
+        verdict = True
+        prods = [st.value for st in ast.walk(fn) if isinstance(st, ast.Assign) and ast.unparse(st.targets[0]) == 'jprod']
+        if not prods:
+            return None
+        for v in prods:
+            if not (isinstance(v, ast.Call) and ast.unparse(v.func) in ('broadcast_kron', 'np.kron') and len(v.args) == 2 and not v.keywords):
+                return None
+            a, b = v.args
+            if _is_conj_of(a, 'jones') and ast.unparse(b) == 'jones':
+                continue
+            if (ast.unparse(a) == 'jones' and (_is_conj_of(b, 'jones') or ast.unparse(b) == 'jones')) or \
+                    (_is_conj_of(a, 'jones') and _is_conj_of(b, 'jones')):
+                verdict = False
+                continue
+            return None
+        scaled = any(isinstance(st, ast.AugAssign) and ast.unparse(st.target) == 'U' and isinstance(st.op, ast.Div)
+                     and ast.unparse(st.value).replace(' ', '') in ('np.sqrt(2)', '2**0.5', 'np.sqrt(2.0)') for st in ast.walk(fn))
+        ms = [st.value for st in ast.walk(fn) if isinstance(st, ast.Assign) and ast.unparse(st.targets[0]) == 'M']
+        if len(ms) != 1 or [ast.unparse(r) for r in find_returns(fn)] != ['M']:
+            return None
+        m = ms[0]
+        if not (isinstance(m, ast.Call) and ast.unparse(m.func) in ('np.real',) and len(m.args) == 1):
+            return None
+        e = m.args[0]
+        if not (isinstance(e, ast.BinOp) and isinstance(e.op, ast.MatMult) and isinstance(e.left, ast.BinOp)
+                and isinstance(e.left.op, ast.MatMult)):
+            return None
+        left, mid, right = ast.unparse(e.left.left), ast.unparse(e.left.right), ast.unparse(e.right).replace(' ', '')
+        inv_ok = right in ('np.linalg.inv(U)', 'inv(U)') or \
+            (scaled and right in ('np.conj(U.T)', 'U.conj().T', 'np.conj(U).T', 'U.T.conj()', 'np.conjugate(U.T)'))
+        if left == 'U' and mid == 'jprod' and inv_ok:
+            return verdict
+        if mid == 'jprod' and left.replace(' ', '') in ('np.linalg.inv(U)', 'inv(U)') and right == 'U':
+            return False        # U^-1 (.) U : the inverse on the wrong side
+        return None
+    g.fact('muellerIsRealOfUKronConjJJUinv', 'prysm/x/polarization.py:jones_to_mueller', mueller_form)
 
     def kron_form():
+        """broadcast_kron(a, b)[..., (r_a, r_b), (c_a, c_b)] = a[..., r_a, c_a] * b[..., r_b, c_b]  (NumPy's kron ordering)"""
         fn = get_def(po, 'broadcast_kron')
-        src = [ast.unparse(st) for st in fn.body if isinstance(st, (ast.Assign, ast.Return))]
-        return src == ["tmp = np.einsum('...ik,...jl', a, b)",
-                       'return tmp.reshape([*a.shape[:-2], a.shape[-2] * b.shape[-2], a.shape[-1] * b.shape[-1]])']
-    recognise(g, 'broadcastKronIsKronecker', 'prysm/x/polarization.py:broadcast_kron', None, kron_form)
+        calls = [c for c in ast.walk(fn) if isinstance(c, ast.Call) and ast.unparse(c.func) == 'np.einsum']
+        if len(calls) != 1 or len(calls[0].args) != 3 or not isinstance(calls[0].args[0], ast.Constant):
+            return None
+        if [ast.unparse(a) for a in calls[0].args[1:]] != ['a', 'b']:
+            return None
+        sub = calls[0].args[0].value.replace(' ', '')
+        m = re.fullmatch(r'\.\.\.([a-zA-Z])([a-zA-Z]),\.\.\.([a-zA-Z])([a-zA-Z])(?:->\.\.\.([a-zA-Z]{4}))?', sub)
+        if not m or len({m.group(1), m.group(2), m.group(3), m.group(4)}) != 4:
+            return None
+        ra, ca, rb, cb = m.group(1), m.group(2), m.group(3), m.group(4)
+        out = m.group(5) or ''.join(sorted([ra, ca, rb, cb]))
+        (ret,) = find_returns(fn)
+        want = '.reshape([*a.shape[:-2],a.shape[-2]*b.shape[-2],a.shape[-1]*b.shape[-1]])'
+        if not ast.unparse(ret).replace(' ', '').endswith(want):
+            return None
+        return out == ra + rb + ca + cb
+    g.fact('broadcastKronIsKronecker', 'prysm/x/polarization.py:broadcast_kron', kron_form)
 
     # ------------------------------------------------------------------ Pauli matrices and coefficients
     def pauli_tables():
@@ -281,9 +397,18 @@ def generate(repo):
         loops = [st for st in wr.body if isinstance(st, ast.For)]
         if len(loops) != 1 or not isinstance(loops[0].iter, ast.List):
             raise Untranslatable('component loop')
-        body = [ast.unparse(s) for s in loops[0].body]
-        if body != ['ret = prop_func(E, *other_args, **kwargs)', 'tmp.append(ret)'] or ast.unparse(loops[0].target) != 'E':
-            raise Untranslatable(f'loop body {body}')
+        lv = ast.unparse(loops[0].target)
+        body = loops[0].body
+        # every component is propagated by prop_func(<component>, ...) and appended, nothing else happens in the loop
+        if len(body) == 2 and isinstance(body[0], ast.Assign) and isinstance(body[0].value, ast.Call) \
+                and ast.unparse(body[0].value.func) == 'prop_func' and body[0].value.args \
+                and ast.unparse(body[0].value.args[0]) == lv \
+                and ast.unparse(body[1]).replace(' ', '') == f'tmp.append({ast.unparse(body[0].targets[0])})':
+            pass
+        elif len(body) == 1 and ast.unparse(body[0]).replace(' ', '').startswith(f'tmp.append(prop_func({lv},'):
+            pass
+        else:
+            raise Untranslatable(f'loop body {[ast.unparse(b)[:40] for b in body]}')
         reads = [names[ast.unparse(e)] for e in loops[0].iter.elts]
         writes = {}
         for st in wr.body:
@@ -306,9 +431,35 @@ def generate(repo):
     def adapter_passthrough():
         fn = get_def(po, 'jones_adapter')
         wr = [n for n in fn.body if isinstance(n, ast.FunctionDef) and n.name == 'wrapper'][0]
-        ifs = [st for st in wr.body if isinstance(st, ast.If) and ast.unparse(st.test) == 'wavefunction.ndim == 2']
-        return len(ifs) == 1 and [ast.unparse(s) for s in ifs[0].body] == ['return prop_func(*args, **kwargs)']
-    recognise(g, 'adapterScalarPassThrough', 'prysm/x/polarization.py:jones_adapter', None, adapter_passthrough)
+        ifs = [st for st in wr.body if isinstance(st, ast.If) and ast.unparse(st.test).replace(' ', '') in
+               ('wavefunction.ndim==2', 'np.ndim(wavefunction)==2', 'args[0].ndim==2')]
+        if len(ifs) != 1 or len(ifs[0].body) != 1 or not isinstance(ifs[0].body[0], ast.Return):
+            return None
+        r = ast.unparse(ifs[0].body[0].value).replace(' ', '')
+        if r in ('prop_func(*args,**kwargs)', 'prop_func(wavefunction,*other_args,**kwargs)'):
+            return True
+        return None
+    g.fact('adapterScalarPassThrough', 'prysm/x/polarization.py:jones_adapter', adapter_passthrough)
+
+    # ------------------------------------------------------------------ documented default arguments
+    def defaults():
+        tr = Tr({'np.pi': 'pi'}, 'num')
+        out = []
+        for leanname, fname, arg in (('retarderThetaDefault', 'linear_retarder', 'theta'),
+                                     ('diattenuatorThetaDefault', 'linear_diattenuator', 'theta'),
+                                     ('hwpThetaDefault', 'half_wave_plate', 'theta'), ('qwpThetaDefault', 'quarter_wave_plate', 'theta'),
+                                     ('polarizerThetaDefault', 'linear_polarizer', 'theta'),
+                                     ('vortexRetardanceDefault', 'vector_vortex_retarder', 'retardance'),
+                                     ('vortexRotateDefault', 'vector_vortex_retarder', 'rotate')):
+            out.append(f'def {leanname} (pi : K) : K := {tr.expr(default_of(get_def(po, fname), arg))}')
+        b = ast.literal_eval(default_of(get_def(po, 'jones_to_mueller'), 'broadcast'))
+        out.append(f'def muellerBroadcastDefault : Bool := {"true" if b else "false"}')
+        return '\n'.join(out)
+    g.item('defaults', 'prysm/x/polarization.py:(default arguments)', None, defaults,
+           '\n'.join(f'def {n} (pi : K) : K := Num.ofInt 0' for n in ('retarderThetaDefault', 'diattenuatorThetaDefault',
+                                                                      'hwpThetaDefault', 'qwpThetaDefault', 'polarizerThetaDefault',
+                                                                      'vortexRotateDefault'))
+           + '\ndef vortexRetardanceDefault (pi : K) : K := pi\ndef muellerBroadcastDefault : Bool := true')
 
     def supported():
         tab = ast.literal_eval(get_const(po, 'supported_propagation_funcs'))
